@@ -26,6 +26,7 @@ import GunYu.Proofs.FilterRange
 import GunYu.Proofs.FilterTrie
 import GunYu.Proofs.FilterKeys
 import GunYu.Proofs.FilterCmdKey
+import GunYu.Proofs.FilterParse
 import GunYu.Props.C11
 
 namespace GunYu.Props.C10
@@ -328,41 +329,240 @@ example : (buildOutput { dbBlack := [1, 3, -1] }).filterDb 3 = true := by decide
 example : (buildOutput { dbBlack := [1, 3, -1] }).filterDb (-1) = false := by decide
 example : (buildOutput { dbBlack := [1, 3, -1] }).filterDb 2 = false := by decide
 
-/-! ### the parser's use of the filter -/
+/-! ### what a forwarded command carries (output level) -/
 
-/-- An ordinary command (not PING / SELECT) is queued for the target exactly
-    when its database is not bypassed, its name is not withheld, it is not the
+/-- Soundness and shape of the forwarded argument list, stated on the OUTPUT:
+    whenever a command with resolved key positions is forwarded,
+    * the table resolves the key positions of what is forwarded, and every key
+      at these positions is accepted by the rules;
+    * the forwarded keys are exactly the accepted keys of the command, in
+      order (`(idx.map args[·]).filter accepted`);
+    * either nothing was removed (`out = args`), or the command is DEL / UNLINK
+      and `out` is that key list, or it is MSET and `out` is the accepted keys
+      each followed by its own value. -/
+theorem forwarded_keys_accepted (f : KeyFilter) (cmd : Bytes) (args out : List Bytes) (idx : List Nat)
+    (hr : f.hasKeyRules = true) (hidx : keyIndexes cmd args = some idx)
+    (h : f.filterCmdKey cmd args = some out) :
+    (∃ idx', keyIndexes cmd out = some idx' ∧
+        (∀ i ∈ idx', f.keyRejected (out.getD i []) = false) ∧
+        idx'.map (fun i => out.getD i []) =
+          (idx.map (fun i => args.getD i [])).filter (fun k => !f.keyRejected k)) ∧
+    (out = args ∨
+     ((lower cmd = wDel ∨ lower cmd = wUnlink) ∧
+        out = (idx.map (fun i => args.getD i [])).filter (fun k => !f.keyRejected k)) ∨
+     (lower cmd = wMset ∧
+        out = (keptIdx f args idx).flatMap (fun i => [args.getD i [], args.getD (i + 1) []]))) := by
+  have hkm : (keptIdx f args idx).map (fun i => args.getD i []) =
+      (idx.map (fun i => args.getD i [])).filter (fun k => !f.keyRejected k) := by
+    unfold keptIdx
+    rw [List.filter_map]
+    rfl
+  have hacc : ∀ i ∈ keptIdx f args idx, f.keyRejected (args.getD i []) = false := by
+    intro i hi
+    unfold keptIdx at hi
+    have := (List.mem_filter.mp hi).2
+    simpa using this
+  by_cases hk1 : keptIdx f args idx = idx
+  · -- nothing removed
+    have hout : out = args := by
+      have := filterCmdKey_all f cmd args idx hr hidx hk1
+      rw [this] at h; exact (Option.some.inj h).symm
+    rw [hout]
+    refine ⟨⟨idx, hidx, ?_, ?_⟩, Or.inl rfl⟩
+    · intro i hi; exact hacc i (by rw [hk1]; exact hi)
+    · rw [← hkm, hk1]
+  · by_cases hk2 : keptIdx f args idx = []
+    · rw [filterCmdKey_none f cmd args idx hr hidx hk2] at h; cases h
+    · rw [filterCmdKey_some f cmd args idx hr hidx hk1 hk2] at h
+      by_cases hd : lower cmd = wDel ∨ lower cmd = wUnlink
+      · rw [if_pos hd] at h
+        have hout := (Option.some.inj h).symm
+        have hne : out ≠ [] := by
+          rw [hout]; intro hc; exact hk2 (List.map_eq_nil_iff.mp hc)
+        refine ⟨⟨List.range out.length, keyIndexes_del cmd hd out hne, ?_, ?_⟩, Or.inr (Or.inl ⟨hd, by rw [hout, hkm]⟩)⟩
+        · intro i hi
+          have hi' : i < out.length := List.mem_range.mp hi
+          have hmem : out.getD i [] ∈ out := by
+            rw [List.getD_eq_getElem?_getD, List.getElem?_eq_getElem hi']
+            exact List.getElem_mem hi'
+          have hmem' : out.getD i [] ∈ (keptIdx f args idx).map (fun i => args.getD i []) := by
+            rw [← hout]; exact hmem
+          obtain ⟨j, hj, hjeq⟩ := List.mem_map.mp hmem'
+          rw [← hjeq]; exact hacc j hj
+        · have : (List.range out.length).map (fun i => out.getD i []) = out := by
+            apply List.ext_getElem
+            · simp
+            · intro n h1 h2
+              simp [List.getD_eq_getElem?_getD, List.getElem?_eq_getElem (by simpa using h1 : n < out.length)]
+          rw [this, hout, hkm]
+      · rw [if_neg hd] at h
+        by_cases hm : lower cmd = wMset
+        · rw [if_pos hm] at h
+          split at h
+          · cases h
+          · have hout := (Option.some.inj h).symm
+            refine ⟨⟨_, by rw [hout]; exact keyIndexes_mset cmd hm (keptIdx f args idx) _ _ hk2, ?_, ?_⟩,
+              Or.inr (Or.inr ⟨hm, hout⟩)⟩
+            · intro i hi
+              obtain ⟨j, hj, rfl⟩ := List.mem_map.mp hi
+              have hj' := List.mem_range.mp hj
+              rw [hout, getD_flatMap_pairs _ _ _ j hj']
+              exact hacc _ (List.getElem_mem hj')
+            · rw [← hkm, hout]
+              apply List.ext_getElem
+              · simp
+              · intro n h1 h2
+                have hn : n < (keptIdx f args idx).length := by simpa using h2
+                simp only [List.getElem_map, List.getElem_range]
+                exact getD_flatMap_pairs _ _ _ n hn
+        · rw [if_neg hm] at h; cases h
+
+/-- No bookkeeping key is ever forwarded at a key position, under every
+    configuration: in whatever the tool's filter lets through of a command with
+    resolved key positions, no key position holds a key with a reserved prefix. -/
+theorem forwarded_keys_not_reserved (c : FilterCfg) (cmd : Bytes) (args out : List Bytes) (idx : List Nat)
+    (hidx : keyIndexes cmd args = some idx)
+    (h : (buildOutput c).filterCmdKey cmd args = some out) :
+    ∃ idx', keyIndexes cmd out = some idx' ∧
+      ∀ i ∈ idx', ¬ (Gen.checkpointKey <+: out.getD i [] ∨ Gen.namespacePrefixKey <+: out.getD i []) := by
+  have hr : (buildOutput c).hasKeyRules = true := by
+    have : (buildOutput c).prefBlack.isSome = true := by
+      rw [out_prefBlack, isSome_insertPrefixes, isSome_insertPrefixes]
+      right; left; simp [reservedPrefixes]
+    simp [KeyFilter.hasKeyRules, this]
+  obtain ⟨⟨idx', h1, h2, _⟩, _⟩ := forwarded_keys_accepted _ cmd args out idx hr hidx h
+  refine ⟨idx', h1, ?_⟩
+  intro i hi hres
+  have := (bookkeeping_never_forwarded c _ hres).2
+  rw [h2 i hi] at this
+  cases this
+
+/-! ### the snapshot path -/
+
+/-- A snapshot key of database `db` is replayed (rdbReplay, rdbReplayBisync)
+    exactly when the database is not listed, no black prefix hits and — if a
+    white list is configured — a white prefix hits, and the slot rule accepts
+    its cluster slot. -/
+theorem rdbKeep_iff (c : FilterCfg) (db : Int) (k : Bytes) :
+    rdbKeep (buildOutput c) db k = true ↔
+      ¬ (db ≠ -1 ∧ db ∈ c.dbBlack) ∧
+      ¬ (prefixHit (reservedPrefixes ++ c.prefBlack) k ∨ (c.prefWhite ≠ [] ∧ ¬ prefixHit c.prefWhite k)) ∧
+      ¬ (slotIn c.slotBlack (Slot.hashSlotSpec k) ∨
+          (c.slotWhite ≠ [] ∧ ¬ slotIn c.slotWhite (Slot.hashSlotSpec k))) := by
+  unfold rdbKeep
+  rw [Bool.and_eq_true, Bool.not_eq_true', Bool.not_eq_true', Bool.or_eq_false_iff,
+    ← db_iff, ← filterKey_iff, ← filterSlot_iff]
+  simp
+
+example : rdbKeep (buildOutput { dbBlack := [2], prefBlack := [[120]] }) 1 [97] = true := by decide +kernel
+example : rdbKeep (buildOutput { dbBlack := [2], prefBlack := [[120]] }) 2 [97] = false := by decide +kernel
+example : rdbKeep (buildOutput { dbBlack := [2], prefBlack := [[120]] }) 1 [120, 97] = false := by decide +kernel
+example : rdbKeep (buildOutput {}) 0 (Gen.checkpointKey ++ [58]) = false := by decide +kernel
+
+/-! ### the configuration layer -/
+
+/-- `SyncConfig.fix` hands the configured filter to the output unchanged
+    (whenever it accepts the configuration at all) — in particular a cluster
+    target keeps the database blacklist. -/
+theorem configFix_preserves (cluster : Bool) (tdb : Int) (resume : Bool) (c c' : FilterCfg)
+    (h : configFix cluster tdb resume c = some c') : c' = c := by
+  unfold configFix at h
+  split at h
+  · cases h
+  · split at h
+    · cases h
+    · exact (Option.some.inj h).symm
+
+example : configFix true (-1) true { dbBlack := [3] } = some { dbBlack := [3] } := rfl
+
+/-! ### the parser's use of the filter (stream level)
+
+  `pcfgOf f …` is the parser configuration of a RedisOutput whose filter is `f`
+  (Model/FilterParse.lean); `Sender.parseStep` / `Sender.parseAll` are the
+  parser-loop model shared with C01 (Model/Sender.lean). -/
+
+/-- An ordinary command (not PING / SELECT) outside a bypassed database is
+    handed to the sender exactly when its name is not withheld, it is not the
     sentinel hello, and the key rules let it through — with the arguments the
-    key rules produce. -/
-theorem parse_forward_iff (f : KeyFilter) (bypass : Bool) (cmd : Bytes) (argv out : List Bytes)
-    (hp : cmd ≠ wPing) (hs : eqFold cmd wSelect = false) :
-    parseFilter f bypass cmd argv = (bypass, .forward cmd out) ↔
-      (bypass && !isTxnBracket cmd) = false ∧ f.filterCmd cmd = false ∧
-      (eqFold cmd wPublish && eqFold (argv.headD []) wSentinelHello) = false ∧
-      f.filterCmdKey cmd argv = some out := by
-  unfold parseFilter
-  have hp' : (cmd != wPing) = true := by simpa using hp
-  simp only [hp', if_true, hs, Bool.false_eq_true, if_false]
-  cases hfc : f.filterCmd cmd <;> simp only [Bool.false_eq_true, if_false, if_true]
-  · cases hsen : (eqFold cmd wPublish && eqFold (argv.headD []) wSentinelHello) <;>
-      simp only [Bool.false_eq_true, if_false, if_true]
-    · cases hb : (bypass && !isTxnBracket cmd) <;> simp only [Bool.false_eq_true, if_false, if_true]
-      · cases hk : f.filterCmdKey cmd argv <;> simp
-      · simp
-    · simp
-  · simp
+    key rules produce, its own end offset and the current target database. -/
+theorem parse_forward_iff (f : KeyFilter) (tdb : Int) (m : List (Int × Int)) (sdb : Int)
+    (s : Sender.PState) (r : Sender.Raw) (i : Sender.Item)
+    (hp : r.cmd ≠ Sender.bPing) (hs : r.cmd ≠ Sender.bSelect) (hb : s.bypass = false) :
+    (∃ s', Sender.parseStep (pcfgOf f tdb m sdb) s r = (s', .emit i)) ↔
+      f.filterCmd r.cmd = false ∧
+      ¬ (r.cmd = Sender.bPublish ∧ (r.args.head?.map lower) = some Sender.bSentinelHello) ∧
+      ∃ out, f.filterCmdKey r.cmd r.args = some out ∧
+        i = { cmd := r.cmd, args := out, offset := r.off, db := s.currentDB } := by
+  unfold Sender.parseStep pcfgOf
+  simp only [hp, hs, if_false]
+  have hct : Sender.passBracket s r.cmd = false := by simp [Sender.passBracket, hb]
+  by_cases hfc : f.filterCmd r.cmd = true
+  · simp [hfc]
+  · have hfc' : f.filterCmd r.cmd = false := by simpa using hfc
+    simp only [hfc', Bool.false_eq_true, if_false, true_and]
+    by_cases hsen : r.cmd = Sender.bPublish ∧ Option.map lower r.args.head? = some Sender.bSentinelHello
+    · simp [hsen]
+    · simp only [hsen, if_false, not_false_eq_true, true_and, hb, hct, Bool.false_eq_true, false_and]
+      cases hk : f.filterCmdKey r.cmd r.args with
+      | none => simp
+      | some out =>
+        simp only [Option.some.injEq, exists_eq_left', Prod.mk.injEq, Sender.POut.emit.injEq]
+        exact eq_comm
 
-/-- After `SELECT n` of a listed database everything is bypassed until the
-    next SELECT; after a SELECT of an unlisted one nothing is. -/
-theorem parse_select_bypass (f : KeyFilter) (bypass : Bool) (a : Bytes) (n : Int)
-    (ha : atoi? a = some n) :
-    (parseFilter f bypass wSelect [a]).1 = f.filterDb n := by
-  unfold parseFilter
-  have h1 : (wSelect != wPing) = true := by decide
-  have h2 : eqFold wSelect wSelect = true := by decide
-  simp only [h1, if_true, h2, ha]
-  cases f.filterDb n <;> simp only [Bool.false_eq_true, if_false, if_true]
-  cases f.filterCmdKey wSelect [a] <;> simp only
-  split <;> rfl
+/-- The database rule over a command STREAM. After a well-formed `SELECT n` of
+    a listed database, until the next SELECT (`mid` holds no SELECT):
+    * the SELECT itself is withheld and the state only gains the bypass flag;
+    * everything of `mid` that is handed to the sender is a transaction bracket
+      (MULTI / EXEC, which the sender absorbs: a withheld bracket would let a
+      transaction that enters or leaves the database run half inside, half
+      outside a transaction), carrying the offset of the last command handed
+      over before the switch — no data command of a listed database is ever
+      forwarded, whatever else the stream contains, and the resume position
+      does not move into the region. -/
+theorem no_forward_in_listed_db (c : FilterCfg) (tdb : Int) (m : List (Int × Int)) (sdb : Int)
+    (s : Sender.PState) (a : Bytes) (n : Int) (off : Int) (mid : List Sender.Raw)
+    (ha : Sender.atoi? a = some n) (hn : n ≠ -1) (hdb : n ∈ c.dbBlack)
+    (hmid : ∀ p ∈ mid, p.cmd ≠ Sender.bSelect) :
+    let pc := pcfgOf (buildOutput c) tdb m sdb
+    Sender.parseAll pc s ({ cmd := Sender.bSelect, args := [a], off := off } :: mid) =
+      Sender.parseAll pc { s with bypass := true } mid ∧
+    ∀ i ∈ Sender.parseAll pc { s with bypass := true } mid,
+      (i.cmd = Sender.bMulti ∨ i.cmd = Sender.bExec) ∧ i.offset = s.lastSent := by
+  intro pc
+  have hf : pc.filterDb n = true := (db_iff c n).mpr ⟨hn, hdb⟩
+  have hstep := parseStep_select_listed pc s a n off ha hf
+  refine ⟨by rw [Sender.parseAll, hstep], ?_⟩
+  exact parseAll_bypass pc { s with bypass := true } mid rfl hmid
+
+-- db 1 listed: SET in db 1 withheld, the EXEC of the transaction opened in db 0 passes with
+-- the offset of the last command handed over (20), SET after SELECT 0 is forwarded again
+example :
+    (Sender.parseAll (pcfgOf (buildOutput { dbBlack := [1] })) { lastSent := 0 }
+      [ { cmd := Sender.bMulti, args := [], off := 10 },
+        { cmd := [115,101,116], args := [[97],[49]], off := 20 },
+        { cmd := Sender.bSelect, args := [[49]], off := 30 },
+        { cmd := [115,101,116], args := [[98],[50]], off := 40 },
+        { cmd := Sender.bExec, args := [], off := 50 },
+        { cmd := [115,101,116], args := [[99],[51]], off := 60 },
+        { cmd := Sender.bSelect, args := [[48]], off := 70 },
+        { cmd := [115,101,116], args := [[100],[52]], off := 80 } ]).map (fun i => (i.cmd, i.offset)) =
+    [(Sender.bMulti, 10), ([115,101,116], 20), (Sender.bExec, 20), (Sender.bSelect, 70), ([115,101,116], 80)] := by
+  decide +kernel
+
+-- a transaction wholly inside the listed database: both brackets handed over (empty), at offset 0;
+-- a transaction that starts inside and leaves it: MULTI(0), select 0, the SET, EXEC
+example :
+    (Sender.parseAll (pcfgOf (buildOutput { dbBlack := [1] })) { lastSent := 0 }
+      [ { cmd := Sender.bSelect, args := [[49]], off := 10 },
+        { cmd := Sender.bMulti, args := [], off := 20 },
+        { cmd := [115,101,116], args := [[107],[118]], off := 30 },
+        { cmd := Sender.bExec, args := [], off := 40 },
+        { cmd := Sender.bMulti, args := [], off := 50 },
+        { cmd := Sender.bSelect, args := [[48]], off := 60 },
+        { cmd := [115,101,116], args := [[107],[118]], off := 70 },
+        { cmd := Sender.bExec, args := [], off := 80 } ]).map (fun i => (i.cmd, i.offset)) =
+    [(Sender.bMulti, 0), (Sender.bExec, 0), (Sender.bMulti, 0), (Sender.bSelect, 60), ([115,101,116], 70),
+     (Sender.bExec, 80)] := by
+  decide +kernel
 
 end GunYu.Props.C10
